@@ -23,7 +23,7 @@ RULE = ("(a) systematic: 2..4 threads x 1..3 failing exec calls with unique path
         "threads uses raw futexes only (no happens-before edges from the harness) so that an unsynchronised access next to a "
         "switch point is reported deterministically; (b) stress: up to 64 free-running threads released from a barrier under "
         "ThreadSanitizer, formats cycling through every data source, file and stdout outputs, with and without a filter chain of differently named filters; (c) the same call sequences single-threaded in the "
-        "non-thread-safe build; (d) free-running threads writing 4..8 KiB records to stdout/stderr connected to an ordinary pipe whose reader starts late and reads slowly. non-trivial (a) = schedule whose executed trace interleaves two calls inside the library; "
+        "non-thread-safe build; (d) free-running threads writing 4..8 KiB records to stdout/stderr connected to a pipe (one page, or 64 KiB) whose reader starts late and reads slowly. non-trivial (a) = schedule whose executed trace interleaves two calls inside the library; "
         "for 2x1 shapes also every directed pair 'thread 0 preempted at one of its close() calls x thread 1 handing back at a point where it owns a descriptor' (one shape with a record too large to send in thread 0); "
         "the process-wide state (umask set to 0002/0000, descriptor table, signal dispositions and mask, cwd, environment) is compared before the threads start and after all calls returned; "
         "distinct by the executed lock/unlock interleaving string")
@@ -323,7 +323,7 @@ def stress(ctx, builds, rounds, nthreads):
     return None
 
 
-def slow_reader(ctx, builds, okind, nthreads, ncalls, size, delay_ms):
+def slow_reader(ctx, builds, okind, nthreads, ncalls, size, delay_ms, pipesz=4096):
     """free-running threads, output stdout/stderr into an ordinary pipe whose reader starts late and reads slowly, records larger than
     PIPE_BUF: every line that arrives is one whole record of one call (the writers have to wait for room; they must not interleave)"""
     d = drv.Driver(ctx.run, builds["ts-plain"], timeout_ms=120000)
@@ -333,16 +333,16 @@ def slow_reader(ctx, builds, okind, nthreads, ncalls, size, delay_ms):
         ini = gen.render_ini([(b"output", okind.encode()), (b"message_format", b"%{filename}|%{cmdline}"),
                               (b"datasource_message_max_length", b"65535"), (b"log_message_max_length", b"65535")])
         capture = out + "/slow-capture"
-        ops = [drv.op("S", fd, "lazypipe", delay_ms, capture), drv.op("C", ini), drv.op("Z", nthreads, 1)]
+        ops = [drv.op("S", fd, "lazypipe", delay_ms, capture, pipesz), drv.op("C", ini), drv.op("Z", nthreads, 1)]
         want = set()
         for t in range(nthreads):
             for k in range(ncalls):
-                arg = (b"%d-%d-" % (t, k)) * (size // 6)
+                arg = ((b"%d-%d-" % (t, k)) * (size // 4 + 1))[:size]
                 ops.append(drv.op_exec("e", b"/bin/w%dc%d" % (t, k), [b"w", arg], [], ret=-1, err=2, tno=t, callno=k))
                 want.add(b"/bin/w%dc%d|w " % (t, k) + arg)
         ops.append(drv.op("y"))
         res = d.scenario(ops)
-        case = {"slow_reader": okind, "threads": nthreads, "calls_each": ncalls, "record_bytes": size, "reader_starts_after_ms": delay_ms}
+        case = {"slow_reader": okind, "threads": nthreads, "calls_each": ncalls, "record_bytes": size, "reader_starts_after_ms": delay_ms, "pipe_bytes": pipesz}
         ctx.count(("slow-reader", okind, nthreads, size), ["slow-reader:" + okind], sample=case)
         if res.timedout or not res.of("y"):
             return {"what": "calls writing to a slowly read %s pipe did not complete (%d threads x %d calls of %d bytes)" % (okind, nthreads, ncalls, size),
@@ -444,7 +444,7 @@ def main():
     # (d) stdout / stderr into a slowly read pipe, records above PIPE_BUF
     for okind, nt, nc, size in ([("stderr", 6, 4, 6000), ("stdout", 6, 4, 7000)] if ctx.quick else
                                 [("stderr", 6, 4, 6000), ("stdout", 6, 4, 7000), ("stderr", 16, 6, 5000), ("stderr", 4, 10, 8000), ("stdout", 16, 6, 4200)]):
-        v = slow_reader(ctx, builds, okind, nt, nc, size, 400)
+        v = slow_reader(ctx, builds, okind, nt, nc, size, 400, 4096 if size != 5000 else 65536)
         if v and len(ctx.violations) < 5:
             ctx.violation(v["case"], v["observed"], None, v["what"])
     # (c) non-thread-safe build, single-threaded sequence
